@@ -11,6 +11,7 @@ CONSTANTS
   SecondStopHangs = FALSE
   AwaitsLastWorkerOnly = FALSE
   WakeAcceptFirst = FALSE
+  MidPollIgnoresStop = FALSE
 SPECIFICATION Spec
 VIEW View
 INVARIANTS C06_GracefulWaits C06_GracefulLetsFinish C06_NoDispatchAfterCompletion C06_SignalKinds
